@@ -23,7 +23,19 @@ TCB_NOTE = ("Trusted: Verus/Z3; Message imported by contract (verified in unit m
             "ASSUMED specs: BinaryHeap (new/push/pop/peek), Duration arithmetic wrappers, mem::take/Default (derive(Default) on Message), VecDeque::{get,front,front_mut}, "
             "core::{to,from}_be_bytes wrappers; declared rewrites listed in the evidence (generic Message::slice wrapper inlined, `mut self` builders, empty array iterator, Duration operators). ")
 
+K_IPGEN = {"unit": "ipgen", "inject": "elvis/src/ip_generator.rs", "crate": "elvis"}
+
 PROPS = {
+    "C15": {
+        "units": ["ipgen", "subnet"],
+        "kani": [K_IPGEN, K_SUBNET],
+        "level": "proof",
+        "technique": "Verus contracts on the extracted ip_generator.rs functions against the set-of-available-addresses view (loops closed by inductive invariants), on top of the subnet arithmetic contracts",
+        "level_text": "Every IpGenerator operation is verified against the abstraction free(g) = set of addresses covered by some available range: block_range/block_subnet remove exactly the blocked addresses, return_* add exactly the returned ones, fetch_net returns only an aligned network of the requested mask all of whose addresses were available and removes exactly those (so nothing is handed out twice while held), reports None only when no available range holds an aligned network of that size, fetch_ip likewise; constructors new/new_sub/new_sub_no_ends/all/none offer exactly the stated pool. Uniqueness of held addresses over any history of block/fetch/return follows by induction from these per-call equations.",
+        "level_note": "Trusted: Verus/Z3 and the subnet unit's assumptions (imported by contract). ASSUMED: BTreeSet::retain specification; vx_ranges (iterating a BTreeSet yields exactly its elements: vstd's iter specification is unusable for a user-defined key); vstd's opaque key_obeys_cmp_spec::<IpRange>() with derive(Ord) on IpRange taken as lexicographic. Declared rewrites: closures annotated with postconditions, `impl From<Ipv4Net> for IpRange` verified as a free function with the precondition net.wf(), iterator adapters -> index loops. NOT decided: the DHCP lease clause (DhcpServer::demux over UDP sessions and locks: async stack); is_available, block_reserved_ips, into_*_iter are not under contract.",
+        "assumptions": ["Ipv4Net / Ipv4Mask values satisfy their type invariant wf()", "BTreeSet iteration yields exactly the set's elements"],
+        "explanation": "address generator as a set of available addresses",
+    },
     "C17": {
         "units": ["tcb", "modcmp", "message"],
         "kani": [K_TCB, K_TCPHDR],
